@@ -541,6 +541,7 @@ def _main(cid, a, seed, deadline, scratch, t0):
         return 2
 
     m = merge(results)
+    slow = sorted(((round(r.get("wall", 0), 1), json.dumps(r.get("spec"))) for r in results), reverse=True)[:3]
     # known findings: probes
     for fid, failing in m["info"].get("probes", []):
         if fid in known_ids and failing:
@@ -596,6 +597,7 @@ def _main(cid, a, seed, deadline, scratch, t0):
         wall_s=round(wall, 2),
         violations=len(seen_buckets),
         budget_exhausted=bool(deadline and time.time() > deadline),
+        slowest_shards=slow,
         hook_guard=os.environ.get(boot.GUARD, ""),
     )
     if hasattr(mod, "finalize"):
